@@ -849,6 +849,7 @@ impl OrdSpecImpl for Version { open spec fn obeys_cmp_spec() -> bool { true } op
     fromstr_unit('Range', RNG, '        ensures (r is Ok ==> range_set_reads(s, r->Ok_0)), (r is Err ==> range_set_rej(s)),  // @Range::from_str#is-parse')
     g.emit('m_vprops', P('vprops.rs'))
     g.emit('m_rprops', P('rprops.rs'))
+    g.emit('m_c13', P('c13_groundwork.rs'))
     g.emit('m_vprops', P('vcomplete.rs'))
     g.emit('m_vprops', P('vsound.rs'))
 
